@@ -71,14 +71,14 @@ func newEnv(k *Case) (*Env, error) {
 	tr := &faultTransport{rec: e.rec, base: &http.Transport{DisableKeepAlives: true}, closed: closed}
 	yes := true
 	o := fixture.Opts{
-		SSH:          true,
-		JWKClaims:    &provisioner.Claims{EnableSSHCA: &yes},
-		JWKOptions:   &provisioner.Options{Webhooks: whs},
+		SSH:        true,
+		JWKClaims:  &provisioner.Claims{EnableSSHCA: &yes},
+		JWKOptions: &provisioner.Options{Webhooks: whs},
 		Provisioners: provisioner.List{
 			&provisioner.SSHPOP{Type: "SSHPOP", Name: "sshpop", Claims: &provisioner.Claims{EnableSSHCA: &yes}},
 			&provisioner.ACME{Type: "ACME", Name: "acme", Options: &provisioner.Options{Webhooks: whs}},
 		},
-		Extra:        []authority.Option{authority.WithWebhookClient(&http.Client{Transport: tr, Timeout: 300 * time.Millisecond})},
+		Extra: []authority.Option{authority.WithWebhookClient(&http.Client{Transport: tr, Timeout: 300 * time.Millisecond})},
 		WrapDB: func(a db.AuthDB) db.AuthDB {
 			d, ok := a.(*db.DB)
 			if !ok {
